@@ -127,6 +127,14 @@ CHECKS = {
         design_ref='DESIGN.md §5 C10, Appendix C',
         note='Trusted base: vf/reflex.py; the depth tracker in vf/checks/c10.py; one-line constructs are identified from the generator\'s line scopes.',
         technique='runtime monitoring: metamorphic oracle + idempotence + independent indentation model'),
+    'C20': dict(
+        category='exploration',
+        text='The harness writes including carts and targets of all three kinds (reference writers), loads them with the real file.from_file and compares the '
+             'code with a reference splice computed from the bytes it wrote (line-based, tab selection by `-->8` lines); nested include lines must stay literal '
+             'and missing targets must fail.',
+        design_ref='DESIGN.md §5 C20',
+        note='Trusted base: vf/refcodec.py writers; the splice rule in vf/checks/c20.py (a spliced line is always a line of its own).',
+        technique='runtime monitoring: reference-model oracle (independent splice) on real loads'),
 }
 
 NOT_BUILT = 'check not built yet in this session (design in DESIGN.md §5); not claimed until its monitor runs silent on the unchanged tree'
